@@ -190,7 +190,7 @@ def generate(src):
             g0 = e.generators[0]
             return k(st_, ('mapped', ast.unparse(e.elt), g0.target.id, ast.unparse(g0.iter)))
     def h_gather(ex_, st_, e, recv, args, kw, k, K):
-        if len(args) != 1 or not (isinstance(args[0], tuple) and args[0][0] == 'mapped') or not isinstance(e.args[0], ast.Starred): raise Unsupported("asyncio.gather call shape")
+        if kw or len(args) != 1 or not (isinstance(args[0], tuple) and args[0][0] == 'mapped') or not isinstance(e.args[0], ast.Starred): raise Unsupported("asyncio.gather call shape (keywords such as return_exceptions change its contract)")
         return k(st_, Tok(lambda s2, k2, K2: k2(s2, ('gathered',) + args[0][1:])))
     def h_zip(ex_, st_, e, recv, args, kw, k, K): return k(st_, ('zip', [ast.unparse(a) for a in e.args], args))
     def h_dict(ex_, st_, e, recv, args, kw, k, K): return k(st_, ('dict', args[0]))
